@@ -7,7 +7,7 @@ M3  range patterns are lowered with both bound comparisons on every path (inclus
 M8  a signed constructor bound is cast to an unsigned number only behind a `>= 0` test of that same bound
 M7  rebuilding a missing case: a compound constructor takes exactly its arity from the witness stack and keeps the rest
 M5  sibling consistency of the parser: struct definitions, struct patterns and struct literals all sort their field lists
-    (the exhaustiveness check pairs pattern fields with definition fields by position)
+    (restricted to definitions after /repo fix ccbd2fe: patterns and literals are matched by name everywhere)
 M4  compound patterns: each field pattern is matched against match_expr[w .. w + size of the field], w advances by that size on
     every path of the iteration (also when the field has no pattern), and the field verdicts are AND-ed into the result
 """
@@ -449,9 +449,8 @@ def rule_m4(ctx):
 
 
 def rule_m5(ctx):
-    """Struct definitions, struct patterns and struct literals are brought into one canonical field order by the parser; the
-    exhaustiveness check pairs pattern fields with definition fields by position."""
-    res = RuleResult("M5", "every parser site that produces a struct field list sorts it (definitions, patterns, literals agree on the order)")
+    """Struct definitions are brought into the canonical (documented) field order by the parser."""
+    res = RuleResult("M5", "the parser sorts the field list of a struct definition (the layout of struct values)")
     n = 0
     for f in ctx.facts["fns"]:
         if "mir" not in f or not f["sp"][0].endswith("parse.rs") or f.get("from_expansion"):
@@ -470,11 +469,10 @@ def rule_m5(ctx):
                     continue
                 rv = st["rv"]
                 what = None
-                if rv.get("adt") == "ast::PatternEnum" and rv.get("variant") in ("Struct", "StructIgnoreRemaining"):
-                    what = "struct pattern"
-                elif rv.get("adt") == "ast::ExprEnum" and rv.get("variant") == "StructLiteral":
-                    what = "struct literal"
-                elif (rv.get("adt") or "") == "ast::StructDef":
+                # (until /repo fix ccbd2fe the exhaustiveness check paired pattern fields with definition fields by position, and the
+                #  field lists of struct patterns and literals had to be sorted as well; now they are matched by name everywhere -
+                #  checker, exhaustiveness, lowering, encoding - and only the definition's order is load-bearing: it is the layout)
+                if (rv.get("adt") or "") == "ast::StructDef":
                     what = "struct definition"
                 if not what:
                     continue
@@ -488,10 +486,10 @@ def rule_m5(ctx):
                     res.ok({"site": "%s at line %d" % (what, st["sp"][1]), "verdict": "field list sorted before it is stored"})
                 else:
                     res.bad(Finding("M5", f["id"], "%s keeps its fields in source order" % what,
-                                    "the other struct field lists are sorted by name and the exhaustiveness check pairs pattern fields with definition fields by position: "
-                                    "fields written in another order are checked against the wrong field types", st["sp"]))
-    if n < 4 and not res.findings:
-        raise AnchorMissing("M5: expected the struct definition / pattern (2) / literal constructions in parse.rs, found %d" % n)
+                                    "the documented layout of a struct value is its fields sorted by name; the definition's field list is what encoder, decoder and lowering "
+                                    "iterate over", st["sp"]))
+    if n < 1 and not res.findings:
+        raise AnchorMissing("M5: expected the struct definition construction in parse.rs, found %d" % n)
     return res
 
 
